@@ -8,8 +8,11 @@ ROOT = os.path.dirname(os.path.dirname(os.path.abspath(__file__)))
 head = json.load(open(os.path.join(ROOT, "tools", "manifest_head.json")))
 checks = []
 claimed = set()
+integrated = open(os.path.join(ROOT, "tools", "integrated.txt")).read().split()
 for f in sorted(glob.glob(os.path.join(ROOT, "props", "C*", "manifest.json"))):
     frag = json.load(open(f))
+    if frag["property_id"] not in integrated:
+        continue
     pid = frag["property_id"]
     frag.setdefault("quick_cmd", "./check %s --tier quick" % pid)
     frag.setdefault("thorough_cmd", "./check %s --tier thorough" % pid)
@@ -19,6 +22,8 @@ for f in sorted(glob.glob(os.path.join(ROOT, "props", "C*", "manifest.json"))):
     checks.append(frag)
     claimed.add(pid)
 head["checks"] = checks
+for e in head.get("engines", []):
+    e["serves_properties"] = sorted(claimed)
 na = json.load(open(os.path.join(ROOT, "tools", "not_applicable.json")))
 head["not_applicable"] = [x for x in na if x["property_id"] not in claimed]
 open(os.path.join(ROOT, "MANIFEST.json"), "w").write(json.dumps(head, indent=1) + "\n")
